@@ -81,6 +81,8 @@ pub fn run(ctx: &Ctx) {
     blocks.push(Block::new(Universe::new("U_adv(A_case)", A_CASE, 3, 1, false), bases.clone(), "i x {{}, r, x, g, e, d, w, D, W+S}"));
     blocks.push(Block::new(Universe::new("U_aAbB{a,A,b,B}", &["a", "A", "b", "B"], 2, 3, true), vec![Cfg::new(I), Cfg::new(I | R), Cfg::new(I | NA | NE)], "i, i+r, i+na+ne"));
     blocks.push(Block::new(u_runs(), vec![Cfg::new(I), Cfg::new(I | X), Cfg::new(I | W)], "i, i+x, i+w"));
+    blocks.push(Block::new(u_many(if thorough { 120 } else { 30 }), vec![Cfg::new(I), Cfg::new(I | R)], "i, i+r"));
+    blocks.push(Block::new(u_kind_triples(), vec![Cfg::new(I), Cfg::new(I | X | E)], "i, i+x+e"));
     if !thorough {
         blocks.push(Block::new(u_kind_pairs(2, 2, false), vec![Cfg::new(I)], "i"));
     } else {
